@@ -127,7 +127,8 @@ def ofPLib (p : PLib) : Sexp :=
   .list (.atom "plib" :: ofBytes p.domain :: p.cells.map fun c => .list [.atom "pcell", ofBytes c.name, ofPLayout c.layout, ofPAbs c.abs])
 
 def opTExport (args : List Sexp) : String :=
-  match args with
+  -- history case `<tlib> <earlier tlib>`: the exporter keeps no state, the earlier wiring does not matter
+  match args.take 1 with
   | [a] => match tlib? a with
     | some lib => match exportLib lib with
       | some p => s!"ok {ofPLib p}"
